@@ -214,6 +214,15 @@ def gen_save():
             raise GenError("Thread::write_json: fnStart must be inserted between type and temp")
         if 'get("fnStart").and_then(|v|v.as_i64())' not in rn or "fn_startasi32" not in rn:
             raise GenError("Thread::from_json: fnStart read in a form the model does not know")
+    _, cl = _body_after(csrc, "impl CallStack", "load_json")
+    empty_thread = bool(re.search(r"if\s+thread\.callstack\.is_empty\(\)\s*\{\s*return\s+Err", tr))
+    no_threads = bool(re.search(r"if\s+self\.threads\.is_empty\(\)\s*\{\s*return\s+Err", cl))
+    if ("is_empty()" in tr) != empty_thread or ("is_empty()" in cl) != no_threads:
+        raise GenError("callstack.rs: emptiness checks of the loader in a form the model does not know")
+    if empty_thread and tr.index("thread.callstack.is_empty()") > tr.index("previousContentObject"):
+        raise GenError("Thread::from_json: the emptiness check must come before previousContentObject")
+    if no_threads and cl.index("self.threads.is_empty()") > cl.index("threadCounter"):
+        raise GenError("CallStack::load_json: the emptiness check must come before threadCounter")
     _, cp = _body_after(ss, "impl StoryState", "copy_and_start_patching")
     if "named_flows" not in cp:
         raise GenError("copy_and_start_patching: named_flows handling not found")
@@ -252,7 +261,9 @@ def gen_save():
           f"Definition save_alias_current : bool := {b(alias)}.",
           f"Definition float_equal_bits : bool := {b(feq_bits)}.",
           f"Definition nonfinite_substituted : bool := {b(nonfinite)}.",
-          f"Definition function_start_saved : bool := {b(fs_w)}.", ""]
+          f"Definition function_start_saved : bool := {b(fs_w)}.",
+          f"Definition empty_thread_rejected : bool := {b(empty_thread)}.",
+          f"Definition no_threads_rejected : bool := {b(no_threads)}.", ""]
     changed = write_if_changed("theories/Gen/SaveGen.v", "\n".join(o))
     facts = {"save.sites_on": sorted(i for i in ids if flags[i]),
              "save.sites_off": sorted(i for i in ids if not flags[i]),
@@ -260,5 +271,6 @@ def gen_save():
              "save.choice_invisible_written": inv_w, "save.choice_invisible_read": inv_r,
              "save.list_origins_written": org_w, "save.list_equal_origins": leq,
              "save.alias_current": alias, "save.float_equal_bits": feq_bits,
-             "save.nonfinite_substituted": nonfinite, "save.function_start_saved": fs_w}
+             "save.nonfinite_substituted": nonfinite, "save.function_start_saved": fs_w,
+             "save.empty_thread_rejected": empty_thread, "save.no_threads_rejected": no_threads}
     return changed, facts
